@@ -1,13 +1,23 @@
 #!/usr/bin/env python3
-"""setup: build the Lean project (all theorems + driver) and the harness from files on disk, offline."""
-import os, sys, subprocess
+"""setup: build the Lean project (all theorems + driver) and every harness binary from files on disk, offline."""
+import os, sys, subprocess, shutil
 sys.path.insert(0, os.path.dirname(os.path.abspath(__file__)))
 import vlib
 rc = subprocess.call([sys.executable, os.path.join(vlib.ROOT, "tools", "translate.py")])
 if rc != 0:
     print("setup: translate.py failed (continuing; checks will report it)")
 rc1 = subprocess.call(["lake", "build"], cwd=vlib.LEAN)
-import shutil
 shutil.copyfile(os.path.join(vlib.REPO, "Cargo.lock"), os.path.join(vlib.HARNESS, "Cargo.lock"))
 rc2 = subprocess.call(["cargo", "build", "--offline"], cwd=vlib.HARNESS, env=vlib.ENV)
-sys.exit(1 if (rc1 or rc2) else 0)
+rc3 = subprocess.call(["cargo", "build", "--offline", "--release"], cwd=vlib.HARNESS, env=vlib.ENV)
+rc4 = subprocess.call(["cargo", "build", "--offline", "--features", "preserve_order"], cwd=vlib.HARNESS,
+                      env=dict(vlib.ENV, CARGO_TARGET_DIR=os.path.join(vlib.BUILD, "cargo_po")))
+# C18 feature cells of the quick tier
+h18 = os.path.join(vlib.ROOT, "harness18")
+rc5 = 0
+if os.path.isdir(h18):
+    shutil.copyfile(os.path.join(vlib.REPO, "Cargo.lock"), os.path.join(h18, "Cargo.lock"))
+    for feats in ["parse,display", "parse,display,perf,preserve_order", "parse", "display"]:
+        env = dict(vlib.ENV, CARGO_TARGET_DIR=os.path.join(vlib.BUILD, "c18", feats.replace(",", "_")))
+        rc5 |= subprocess.call(["cargo", "build", "--offline", "--features", feats], cwd=h18, env=env)
+sys.exit(1 if (rc1 or rc2 or rc3 or rc5) else 0)
